@@ -1,10 +1,15 @@
 (* C07 driver.  Scenario:  <mode> <tbd> <pre> <ntests> { <before> <ipre> <setup> <body> <teardown> <ipost> } <tail>
-     list ::= <n> stmt*n      stmt ::= :a id size kind | :f id | :r id size | :x | :e n | :i
-   (mode = how the harness reaches the detector -- 0 local detector handed to the plugin, 1 the global detector through
+     list ::= <n> stmt*n
+     stmt ::= :a id size kind | :f id | :r id size | :x | :e n | :i                     (the runner's plugin / its detector / the macros)
+            | :pn j shared | :pd j                                                      (q[j] = new MemoryLeakWarningPlugin(...) / delete q[j])
+            | :pa j id size | :pf j id | :pr j id size                                  (through q[j]'s private detector)
+            | :pb j | :pe j | :pq j k                                                   (q[j]->preTestAction / ->postTestAction / ->FinalReport(k))
+   (mode = how the harness reaches the runner's detector -- 0 local detector handed to the plugin, 1 the global detector through
     new / new [] / malloc -- it does not exist in the model: the observation has to be the same for both).
-   Observation: <err> <ntests> { nfail nleak noleaks many total k (num size)^k } <stray> <empty> <noleaks> <many> <total> k (num size)^k *)
-let stmt c =
-  match next c with
+   Observation: <err> <ntests> { nfail nleak noleaks many total k (num size)^k } <stray> <empty> <noleaks> <many> <total> k (num size)^k
+                <nsec> { 0 j nfail nleak noleaks many total k (num size)^k  |  1 j empty noleaks many total k (num size)^k } *)
+let bstmt t c =
+  match t with
   | ":a" -> let id = n_tok (next c) in let sz = n_tok (next c) in let k = n_tok (next c) in SAlloc (id, sz, k)
   | ":f" -> SFree (n_tok (next c))
   | ":r" -> let id = n_tok (next c) in let sz = n_tok (next c) in SRealloc (id, sz)
@@ -12,6 +17,18 @@ let stmt c =
   | ":e" -> SExpect (n_tok (next c))
   | ":i" -> SIgnore
   | t -> raise (Bad ("statement " ^ t))
+let two = Npos (XO XH)
+let stmt c =
+  match next c with
+  | ":pn" -> let j = n_tok (next c) in let sh = bool_tok (next c) in MNew (j, sh)
+  | ":pd" -> MDel (n_tok (next c))
+  | ":pa" -> let j = n_tok (next c) in let id = n_tok (next c) in let sz = n_tok (next c) in MOn (j, SAlloc (id, sz, two))
+  | ":pf" -> let j = n_tok (next c) in MOn (j, SFree (n_tok (next c)))
+  | ":pr" -> let j = n_tok (next c) in let id = n_tok (next c) in let sz = n_tok (next c) in MOn (j, SRealloc (id, sz))
+  | ":pb" -> MPre (n_tok (next c))
+  | ":pe" -> MPost (n_tok (next c))
+  | ":pq" -> let j = n_tok (next c) in let k = n_tok (next c) in MFinal (j, k)
+  | t -> MS (bstmt t c)
 let scenario ts =
   let c = { rest = ts } in
   let _mode = next c in
@@ -19,31 +36,44 @@ let scenario ts =
   let pre = counted c stmt in
   let tests = counted c (fun c -> let b = counted c stmt in let ip = counted c stmt in let s = counted c stmt in let bo = counted c stmt in
                                   let td = counted c stmt in let ipo = counted c stmt in
-                                  { t_before = b; t_ipre = ip; t_setup = s; t_body = bo; t_teardown = td; t_ipost = ipo }) in
+                                  { mt_before = b; mt_ipre = ip; mt_setup = s; mt_body = bo; mt_teardown = td; mt_ipost = ipo }) in
   let tail = counted c stmt in
   if not (at_end c) then raise (Bad "trailing tokens");
-  { s_pre = pre; s_tests = tests; s_tail = tail; s_tbd = tbd }
+  { m_pre = pre; m_tests = tests; m_tail = tail; m_tbd = tbd }
 let key (a, b) = (int_of_n a, int_of_n b)
 let pents es =
   let es = List.sort (fun x y -> compare (key x) (key y)) es in
   Printf.sprintf "%x" (List.length es) :: List.concat_map (fun (a, b) -> [pn a; pn b]) es
 let ptest i = [pn i.ti_fail; pn i.ti_leak; pbool i.ti_noleaks; pbool i.ti_many; pn i.ti_total] @ pents i.ti_entries
+let psec = function
+  | SIPost (j, i) -> ["0"; pn j] @ ptest i
+  | SIFinal (j, e, nl, m, t, es) -> ["1"; pn j; pbool e; pbool nl; pbool m; pn t] @ pents es
 let run_line ts =
   let s = scenario ts in
-  if not (valid s) then raise (Bad "scenario is not valid (block id in use / out of range, realloc of a new/new[] block, or a flag statement outside a test)") else
-  let o = run s in
-  String.concat " " ([pbool o.o_err; Printf.sprintf "%x" (List.length o.o_tests)] @ List.concat_map ptest o.o_tests
-                     @ [pn o.o_stray; pbool o.o_empty; pbool o.o_noleaks; pbool o.o_many; pn o.o_total] @ pents o.o_entries)
+  if not (mvalid s) then raise (Bad "scenario is not valid (block id in use / out of range, realloc of a new/new[] block, a flag statement outside a test, or a statement about another plugin instance where the property does not speak about it)") else
+  let m = mrun s in
+  let o = m.mo_main in
+  String.concat " " ([pbool (o.o_err || m.mo_err); Printf.sprintf "%x" (List.length o.o_tests)] @ List.concat_map ptest o.o_tests
+                     @ [pn o.o_stray; pbool o.o_empty; pbool o.o_noleaks; pbool o.o_many; pn o.o_total] @ pents o.o_entries
+                     @ [Printf.sprintf "%x" (List.length m.mo_sec)] @ List.concat_map psec m.mo_sec)
 let ents c = counted c (fun c -> let a = n_tok (next c) in let b = n_tok (next c) in (a, b))
+let titem c =
+  let f = n_tok (next c) in let l = n_tok (next c) in let nl = bool_tok (next c) in let m = bool_tok (next c) in
+  let t = n_tok (next c) in let e = ents c in
+  { ti_fail = f; ti_leak = l; ti_noleaks = nl; ti_many = m; ti_total = t; ti_entries = e }
 let spec_line ts os =
   let s = scenario ts in
-  if not (valid s) then true (* not a program the property speaks about (only the shrinker makes them): not judged *) else
+  if not (mvalid s) then true (* not a program the property speaks about (only the shrinker makes them): not judged *) else
   let c = { rest = os } in
   let err = bool_tok (next c) in
-  let tests = counted c (fun c -> let f = n_tok (next c) in let l = n_tok (next c) in let nl = bool_tok (next c) in let m = bool_tok (next c) in
-                                  let t = n_tok (next c) in let e = ents c in
-                                  { ti_fail = f; ti_leak = l; ti_noleaks = nl; ti_many = m; ti_total = t; ti_entries = e }) in
+  let tests = counted c titem in
   let stray = n_tok (next c) in let empty = bool_tok (next c) in let nl = bool_tok (next c) in let m = bool_tok (next c) in
   let t = n_tok (next c) in let e = ents c in
+  let sec = counted c (fun c -> match next c with
+                                | "0" -> let j = n_tok (next c) in SIPost (j, titem c)
+                                | "1" -> let j = n_tok (next c) in let em = bool_tok (next c) in let nl = bool_tok (next c) in
+                                         let m = bool_tok (next c) in let t = n_tok (next c) in let e = ents c in SIFinal (j, em, nl, m, t, e)
+                                | t -> raise (Bad ("instance item " ^ t))) in
   if not (at_end c) then false else
-  spec s { o_err = err; o_tests = tests; o_stray = stray; o_empty = empty; o_noleaks = nl; o_many = m; o_total = t; o_entries = e }
+  mspec s { mo_main = { o_err = err; o_tests = tests; o_stray = stray; o_empty = empty; o_noleaks = nl; o_many = m; o_total = t; o_entries = e };
+            mo_err = err; mo_sec = sec }
